@@ -9,6 +9,7 @@ panics. `listener` adds miekg's accept filter in front (library behaviour, trans
 Property theorems only; helper lemmas are in `Proofs/Chain.lean`.
 -/
 import DnsVerif.Proofs.Chain
+import DnsVerif.Generated.Facts
 
 namespace DnsVerif.Props.C20
 open DnsVerif.Chain
@@ -284,5 +285,12 @@ example :
     let r : Response := { setReply {} with answer := [hinfoRR ['a'], hinfoRR ['b'], hinfoRR ['c']] }
     fits T r 2 = false ∧ (T.cut 2 r).tc = true ∧ T.size (T.cut 2 r) = 2 := by
   refine ⟨by decide, rfl, by decide⟩
+
+
+/-- the literal fields of the synthesized HINFO answer, re-extracted from `fbserver/any.go` on every
+run, are the ones the model uses -/
+theorem any_hinfo_matches :
+    Generated.fbserver_any_hinfo_cpu = Chain.hinfoCpu ∧ Generated.fbserver_any_hinfo_os = Chain.hinfoOs ∧
+    Generated.fbserver_any_hinfo_ttl = toString Chain.hinfoTtl := by decide +kernel
 
 end DnsVerif.Props.C20
